@@ -9,6 +9,9 @@ CFGS = {
               # several CREATE TABLEs between logged statements and a restart (LSN counter vs page LSNs), then root splits
               ("c02-lsn", dict(CrashAt=IDLE, MaxStmts=6, MaxRows=2, MaxFlush=0, MaxCrash=2, Tables='{"t1", "t2", "t3"}', Vals="{1}",
                                DmlTables='{"t1"}', Ops='{"create", "insert"}'), 12000),
+              # a multi-level table, a logged insert, then row ids taken by unlogged CREATE TABLEs, a crash, more ids taken
+              ("c02-ddl", dict(CrashAt=IDLE, MaxStmts=7, MaxRows=2, MaxFlush=1, MaxCrash=2, Tables='{"t1", "t2", "t3"}', Vals="{1}",
+                               DmlTables='{"t1"}', Ops='{"create", "insert"}', Script="<- ScriptGrowThenDdl", ScriptRows="<- RowsGrowThenDdl"), None),
               # refused statements (CREATE TABLE with a column the catalog cannot hold, INSERT with a bad row) between the
               # acknowledged ones: whatever a refused statement leaves behind in memory must not shift what recovery rebuilds
               ("c02-bad", dict(CrashAt=IDLE, BadMode='"type-size"', MaxStmts=5, MaxRows=3, MaxFlush=0, MaxCrash=1, Tables='{"t1", "t2"}',
@@ -16,6 +19,8 @@ CFGS = {
     "thorough": [("c02-a", dict(EmitMod=40, CrashAt=IDLE, MaxStmts=5, MaxRows=2, MaxFlush=2, MaxCrash=2, Tables='{"t1"}'), 60000),
                  ("c02-b", dict(EmitMod=30, CrashAt=IDLE, MaxStmts=6, MaxRows=3, MaxFlush=2, MaxCrash=3, Tables='{"t1"}', Vals="{1}"), 60000),
                  ("c02-c", dict(EmitMod=3, CrashAt=IDLE, MaxStmts=5, MaxRows=2, MaxFlush=1, MaxCrash=2, Vals="{1}"), 60000),
+                 ("c02-ddl", dict(CrashAt=IDLE, MaxStmts=7, MaxRows=2, MaxFlush=2, MaxCrash=2, Tables='{"t1", "t2", "t3"}', Vals="{1}",
+                                  DmlTables='{"t1"}', Ops='{"create", "insert"}', Script="<- ScriptGrowThenDdl", ScriptRows="<- RowsGrowThenDdl"), 60000),
                  ("c02-bad", dict(CrashAt=IDLE, BadMode='"type-size"', MaxStmts=6, MaxRows=3, MaxFlush=1, MaxCrash=1, Tables='{"t1", "t2"}',
                                   DmlTables='{"t1"}', Vals="{1}", Ops='{"create", "insert"}'), 60000),
                  ("c02-lsn", dict(EmitMod=5, CrashAt=IDLE, MaxStmts=7, MaxRows=2, MaxFlush=1, MaxCrash=2, Tables='{"t1", "t2", "t3"}', Vals="{1}",
